@@ -233,6 +233,10 @@ func (p *PeerScoreParams) validate() error {
 		if p.DecayToZero <= 0 || p.DecayToZero >= 1 || isInvalidNumber(p.DecayToZero) {
 			return fmt.Errorf("invalid DecayToZero; must be between 0 and 1")
 		}
+	} else {
+		// both left unset: the decay still runs (the scorer's ticker needs a positive interval)
+		p.DecayInterval = DefaultDecayInterval
+		p.DecayToZero = DefaultDecayToZero
 	}
 
 	// no need to check the score retention; a value of 0 means that we don't retain scores
